@@ -4,6 +4,7 @@ import (
 	"bytes"
 	"encoding/json"
 	"fmt"
+	"net/url"
 	"sort"
 	"strings"
 )
@@ -115,12 +116,43 @@ func GenDocs(t *Tape, wantBucket bool) *Scenario {
 			outs = append(outs, u)
 			return u
 		}
+		// URLs whose query holds a second '?' behind a '/': what decides asset / outlink is the path before the FIRST '?'
+		newAssetOdd := func(ext string) string {
+			p := "/files/" + c.Name("f") + ext
+			raw := "http://" + host + p + "?src=/portal/view?id=7"
+			canon := p + "?src=" + url.QueryEscape("/portal/view?id=7")
+			r := c.res(host, canon, "", 2, May, OK("application/octet-stream", Bin(40, c.Uid())))
+			r.Tags["c19"] = "asset"
+			assets = append(assets, "http://"+host+canon)
+			return raw
+		}
+		newOutOdd := func() string {
+			u := "http://" + host + "/go" + fmt.Sprint(c.Uid()) + "?next=http://" + other + "/a/logo.png?v=2"
+			outs = append(outs, u)
+			return u
+		}
 		var ct, body string
 		switch kind {
 		case "json":
 			ct = "application/json"
 			deep := fmt.Sprintf(`{"level1":{"level2":[{"level3":{"thumb":"%s"}},["%s",{"x":"%s"}]]}}`, newAsset(".png"), newAsset(".jpg"), newOut())
-			inner, _ := json.Marshal(map[string]any{"media": newAsset(".mp4"), "n": 3})
+			innerMap := map[string]any{"media": newAsset(".mp4"), "n": 3}
+			if c.Chance(1, 3) {
+				// a big embedded document (several KiB of JSON inside one string value)
+				var items []map[string]string
+				for j, n := 0, 30+c.N(60); j < n; j++ {
+					it := map[string]string{"id": fmt.Sprint(j), "caption": string(PadText(40, c.Uid()))}
+					if j%9 == 0 {
+						it["thumb"] = newAsset(".png")
+					}
+					if j%17 == 3 {
+						it["page"] = newOut()
+					}
+					items = append(items, it)
+				}
+				innerMap["items"] = items
+			}
+			inner, _ := json.Marshal(innerMap)
 			innerStr, _ := json.Marshal(string(inner))
 			body = fmt.Sprintf(`{"id":%d,"title":"t","url":"%s","nested":%s,"embedded":%s,"list":["%s","not a url",42,null],"esc":"%s"}`,
 				c.N(99), newOut(), deep, innerStr, newAsset(".css"), strings.ReplaceAll(newAsset(".gif"), "/", `\/`))
@@ -134,6 +166,9 @@ func GenDocs(t *Tape, wantBucket bool) *Scenario {
 			ct = "application/xml"
 			body = fmt.Sprintf(`<?xml version="1.0"?><root xmlns:m="http://ns.example/m"><item href="%s"><m:thumb url="%s"/><link>%s</link><data><![CDATA[%s]]></data></item><note>plain text</note></root>`,
 				newOut(), newAsset(".png"), newAsset(".pdf"), newAsset(".zip"))
+			if c.Chance(1, 2) {
+				body = strings.Replace(body, "<note>", fmt.Sprintf(`<report>%s</report><jump>%s</jump><note>`, newAssetOdd(".pdf"), newOutOdd()), 1)
+			}
 		case "rss":
 			ct = "application/rss+xml"
 			body = fmt.Sprintf(`<?xml version="1.0"?><rss version="2.0"><channel><title>t</title><link>%s</link><item><title>a</title><link>%s</link><enclosure url="%s" type="audio/mpeg"/></item></channel></rss>`,
